@@ -79,13 +79,20 @@ func govcBuildIdentityModules(ids []govcIdent, nmods int, own []string, prefixes
 		} else {
 			sb.WriteString(body.String())
 		}
-		if m == 0 {
-			for i, id := range ids {
-				pfx := ""
-				if id.mod != 0 {
-					pfx = prefixes[0][id.mod] + ":"
-				}
+		// every module refers to every identity, each under its own prefixes (the same
+		// text "p:name" may denote different identities in different modules); every
+		// other one through a typedef
+		for i, id := range ids {
+			pfx := ""
+			if id.mod != m {
+				pfx = prefixes[m][id.mod] + ":"
+			} else if i%2 == 1 {
+				pfx = own[m] + ":"
+			}
+			if (i+m)%2 == 0 {
 				fmt.Fprintf(&sb, "  leaf ref%d { type identityref { base %s%s; } }\n", i, pfx, id.name)
+			} else {
+				fmt.Fprintf(&sb, "  typedef tref%d { type identityref { base %s%s; } }\n  leaf ref%d { type tref%d; }\n", i, pfx, id.name, i, i)
 			}
 		}
 		sb.WriteString("}\n")
@@ -237,9 +244,11 @@ func TestGovcBoundedC11Closure(t *testing.T) {
 				}
 				lines = append(lines, fmt.Sprintf("%d:%s", i, strings.Join(got, ",")))
 				// the identityref leaf sees the same identity
-				leaf := ToEntry(ms.Modules["m0"]).Dir[fmt.Sprintf("ref%d", i)]
-				if leaf == nil || leaf.Type == nil || leaf.Type.IdentityBase != obj {
-					fmt.Printf("GOVC-FAIL name=c11-identity-closure graph %d: identityref leaf ref%d does not point at m%d:%s\n", g, i, id.mod, id.name)
+				for rm := 0; rm < nmods; rm++ {
+					leaf := ToEntry(ms.Modules[fmt.Sprintf("m%d", rm)]).Dir[fmt.Sprintf("ref%d", i)]
+					if leaf == nil || leaf.Type == nil || leaf.Type.IdentityBase != obj {
+						fmt.Printf("GOVC-FAIL name=c11-identity-closure graph %d: identityref leaf ref%d of module m%d does not point at m%d:%s\n", g, i, rm, id.mod, id.name)
+					}
 				}
 			}
 			cur := strings.Join(lines, ";")
@@ -266,5 +275,45 @@ func TestGovcBoundedC11Closure(t *testing.T) {
 			fmt.Printf("GOVC-FAIL name=c11-identity-errors accepted without error: %s\n", bad)
 		}
 	}
-	fmt.Printf("GOVC-BOUNDED name=c11-identity-closure bound=%d_random_derivation_graphs_(<=8_identities,_<=3_modules_or_submodules,_colliding_prefixes,_seed_%d)_x_4_runs_each evaluations=%d distinct=%d\n", graphs, seed, evals, distinct)
+	// random derivation rings with ordinary derivations hanging off their members and
+	// roots above them: every run (map order differs) must report the cycle
+	for c := 0; c < graphs/2; c++ {
+		k := 1 + rng.Intn(4) // ring size (1: an identity based on itself)
+		extra := rng.Intn(6)
+		var lines []string
+		lines = append(lines, "identity top;")
+		for i := 0; i < k; i++ {
+			l := fmt.Sprintf("identity r%d { base r%d;", i, (i+1)%k)
+			if rng.Intn(3) == 0 {
+				l += " base top;"
+			}
+			lines = append(lines, l+" }")
+		}
+		for x := 0; x < extra; x++ {
+			b := fmt.Sprintf("r%d", rng.Intn(k))
+			if x > 0 && rng.Intn(3) == 0 {
+				b = fmt.Sprintf("x%d", rng.Intn(x))
+			}
+			l := fmt.Sprintf("identity x%d { base %s;", x, b)
+			if rng.Intn(4) == 0 {
+				l += fmt.Sprintf(" base r%d;", rng.Intn(k))
+			}
+			lines = append(lines, l+" }")
+		}
+		rng.Shuffle(len(lines), func(i, j int) { lines[i], lines[j] = lines[j], lines[i] })
+		text := "module m { namespace \"urn:m\"; prefix m;\n  " + strings.Join(lines, "\n  ") + "\n}\n"
+		for run := 0; run < 6; run++ {
+			evals++
+			ms := NewModules()
+			if err := ms.Parse(text, "ring.yang"); err != nil {
+				fmt.Printf("GOVC-FAIL name=c11-identity-errors ring %d does not parse: %v\n%s", c, err, text)
+				break
+			}
+			if errs := ms.Process(); len(errs) == 0 {
+				fmt.Printf("GOVC-FAIL name=c11-identity-errors a derivation cycle is accepted without error (run %d):\n%s", run, text)
+				break
+			}
+		}
+	}
+	fmt.Printf("GOVC-BOUNDED name=c11-identity-closure bound=%d_random_derivation_graphs_(<=8_identities,_<=3_modules_or_submodules,_colliding_prefixes,_seed_%d)_x_4_runs_each,_and_half_as_many_derivation_rings_x_6_runs evaluations=%d distinct=%d\n", graphs, seed, evals, distinct)
 }
